@@ -102,7 +102,8 @@ def run_check(prop, tier, seed, args):
 
     # 2. seeded search
     agg = R.run_batch(prop, seed, tier, n_runs=n_runs, seconds=seconds,
-                      det_check=16 if quick else 32)
+                      det_check=(0 if not getattr(prop, 'DIGEST_STABLE', True)
+                                 else 16 if quick else 32))
     for he in agg.harness_errors:
         harness_err.append(json.dumps(he)[:800])
 
